@@ -83,7 +83,10 @@ def make_submitter(config, cache_root, shared):
 
 def make_job(task, config, cache_root, shared):
     from pydra.engine.job import Job
+    import datetime as dt
     sub = make_submitter(config, cache_root, shared)
+    # pydra pickles jobs while a submission is in flight (Submitter.__call__ has set run_start_time)
+    sub.run_start_time = dt.datetime.now()
     hooks = make_hooks() if config.endswith("-rich") else None
     return Job(task, submitter=sub, name="main", hooks=hooks)
 
